@@ -37,6 +37,12 @@ def run(ctx):
                                 "procedure declared twice in a module"})
     if rc["violation"]:
         ctx.violation("bounded/m_corpus_rel", {"inputs": rc["inputs"], "observed": rc["violation"]}, True)
+    from effects import expansion as _E
+    from checklib import REPO as _REPO
+    _conf = lambda: ctx.monitor("m_names_e2e", "search", 80, ctx.seed)
+    _E.input_lists_not_consumed(ctx, "C08", _REPO, _conf)
+    _E.grouping_ignores_selection(ctx, "C08", _REPO, _conf)
+    _E.variant_inherits_format(ctx, "C08", _REPO, _conf)
     r2 = ctx.monitor("m_names_e2e", "search", 80, ctx.seed)
     ctx.bounded.append({"monitor": "m_names_e2e", "inputs_tried": r2["tried"], "violation": r2["violation"],
                         "kind": "bounded: generated files of 6 libraries x 2 prefixes (overloads with fortran_generic variants, "
